@@ -426,7 +426,8 @@ def run_case(ctx, doc, feats, idx=None):
             s = p.get_xml(pretty=pretty)
             r2 = etree.fromstring(s)
         except Exception as e:
-            ctx.violation("get_xml-unparsable-%s" % sp, "get_xml() output is not parsable XML / raises", dict(wit, exc=exc_str(e)))
+            kind = "namespace-binding" if ("redefined" in str(e) or "amespace" in str(e)) else "unparsable"
+            ctx.violation("get_xml-%s-%s" % (kind, sp), "get_xml() output is not parsable XML / raises (get_xml_obj() was right)", dict(wit, exc=exc_str(e)))
             return
         if pretty:
             if has_ws_only(x):
@@ -435,7 +436,12 @@ def run_case(ctx, doc, feats, idx=None):
         out2 = []
         compare(x, r2, feats, out2)
         for mech, detail in out2[:1]:
-            ctx.violation("get_xml-%s" % mech, "re-parsed get_xml(pretty=%s) differs from the encoded document" % pretty, dict(wit, diff=detail, xml=s.decode("utf-8", "replace")[:1500]))
+            # the in-memory tree was right, so this is about how prefixes were bound when serialising
+            if mech.startswith(("element-qname", "attr-name", "attr-unexpected")):
+                mech = "namespace-binding-%s" % sp
+            ctx.violation("get_xml-%s" % mech, "re-parsed get_xml(pretty=%s) differs from the encoded document (get_xml_obj() was right)" % pretty,
+                          dict(wit, diff=detail, xml=s.decode("utf-8", "replace")[:1500]))
+            return
     ctx.sig(feats["pool"], feats["depth"], min(feats["elements"], 10), min(feats["nsdecls"], 4), tuple(feats["types"]), feats["special"], tuple(feats["text"]))
     ctx.count("cases_" + sp)
 
@@ -474,6 +480,11 @@ def fixed_cases(ctx):
     cases.append((d(W.Elem(None, "p", children=[W.Text("x\U0001F600y")]), utf8=True), "supplementary"))
     cases.append((d(W.Elem(None, "p", children=[W.Text("x\U0001F600y")]), utf8=False), "supplementary"))
     cases.append((d(W.Elem(None, "p", children=[W.Text("x\U0001F600y")]), utf8=True, cesu8=True), "cesu8-supplementary"))
+    # prefix re-declared in a nested scope (legal XML); index layout chosen so that the set-ordered nsmap picks the outer binding
+    dd = W.Elem(None, "d", attrs=[W.Attr("urn:z", "y", W.TYPE_STRING, value="1")], nsdecls=[("a", "urn:y3")])
+    cc = W.Elem(None, "c", nsdecls=[("u", "urn:z"), ("a", "urn:y2")], children=[dd])
+    rr = W.Elem(None, "r", nsdecls=[("u", "urn:x"), ("a", "urn:y1")], children=[cc])
+    cases.append((d(rr, utf8=True, extra_resmap_ids=[("theme0", 0x01019900), ("theme1", 0x01019901)]), "ns-prefix-redeclared"))
     out = []
     for doc, special in cases:
         g = {"special": special, "pool": "utf8" if doc.utf8 else "utf16", "elements": sum(1 for _ in W.walk(doc.root)), "depth": 0, "nsdecls": 0,
